@@ -27,7 +27,7 @@ type scanOut struct {
 	Calls      []recext.Call
 	Events     []string
 	Packages   []recext.PkgKey // in emitted order
-	Statuses   []statusKey      // in emitted order
+	Statuses   []statusKey     // in emitted order
 	Status     plugin.ScanStatusEnum
 	Reason     string
 	Inodes     []string
